@@ -3,7 +3,7 @@ from . import shared as S
 from . import alias_rules as A
 
 META = {
-    'claim_added': 'Also decided: no early exit from the Union member loop; attributes are looked up per declared parameter by name and every present one is judged; Any positions are stripped on every exit; strip_tags re-resolves with constant flags.',
+    'claim_added': 'Also decided: no early exit from the Union member loop; attributes are looked up per declared parameter by name and every present one is judged; Any positions are stripped on every exit; strip_tags re-resolves with constant flags. Round 3: nothing rewrites the composed tree (key order, merge keys) before recognition (R13.7).',
     'level': 'other',
     'technique': 'static: forbidden-read rule for presentation attributes and a sink rule for source marks (messages and new '
                  'nodes only) with positive controls; decision table of the generic-kind predicates; who-reads-__origin__; '
